@@ -70,7 +70,8 @@ Definition is_nil {A} (l : list A) : bool := match l with [] => true | _ => fals
 Definition d_rule (r : rule) : mp :=
   MArr [MInt (r_id r); MInt (r_mask r); t_filter_part (r_filter r); t_opt MStr (r_modifier r);
         t_opt MStr (r_hostname r); t_opt MStr (r_tag r); t_opt (t_list MInt) (r_opt_domains r);
-        t_opt (t_list MInt) (r_opt_not_domains r); t_opt MStr (r_raw r)].
+        t_opt (t_list MInt) (r_opt_not_domains r); t_opt MStr (r_raw r);
+        t_opt MInt (r_dunion r); t_opt MInt (r_ndunion r)].   (* the unions are read by check_options *)
 Definition d_buckets (m : bucket_map) : mp := t_nmap (t_list d_rule) (sort_nmap m).
 Definition d_bins (m : list (N * list str)) : mp :=
   t_nmap (t_list MStr) (sort_nmap (filter (fun kb => negb (is_nil (snd kb))) m)).
